@@ -36,7 +36,9 @@ package frugal
 //@ const ghost $win = BSeq
 //@ func EncodeObject(buf []byte, w thrift.NocopyWriter, val any) (n int, err error)
 //@   requires buf.ptr + cap(buf) <= $brk
-//@   modifies M[buf.ptr : buf.ptr + len(buf)], $brk, $encp, $wire, $encerr, $win
+//@   requires c07_caches: $(cachereq)
+//@   ensures c07_caches: $(cachereq)
+//@   modifies M[buf.ptr : buf.ptr + len(buf)], $brk, $encp, $wire, $encerr, $win, $maps, $complete, $inprog, "H.tType.Sd", $sds
 //@   after Append ghost $wire = abs_r
 //@   after Append ghost $win = abs_b
 //@   after Append ghost $encerr = res_err
@@ -51,7 +53,9 @@ package frugal
 // EncodedSize: exactly the length EncodeObject produces for the same value and memory (SZS is the
 // length every writer is proved to append, c04_len).
 //@ func EncodedSize(val any) (n int)
-//@   modifies $brk, $encp, $szerr
+//@   requires c07_caches: $(cachereq)
+//@   ensures c07_caches: $(cachereq)
+//@   modifies $brk, $encp, $szerr, $maps, $complete, $inprog, "H.tType.Sd", $sds
 //@   panics when true
 //@   ensures c04_top: n == SZS(sdFor(rvOf(val)), M, $encp)
 //@   ensures c16_value: forall a Int :: {M[a]} a < old($brk) ==> M[a] == old(M[a])
